@@ -85,15 +85,18 @@ func main() {
 			"Go-side families: handlers at every internal limit and entry depth, white-box counters after every contained error and black-box nesting gauges after long histories, exact values raised by Go functions; " +
 			"non-trivial = at least 5 emitted rows or an error outcome; distinct by Gallina term",
 		Modes: []luaprop.Mode{{Name: "errors", Features: f, Weight: 3},
-			{Name: "errors-autostack", Features: f, Weight: 1, Run: &luagen.RunOptions{MinimizeStack: true, CallStackSize: 64}},
+			{Name: "errors-autostack", Features: f, Weight: 1, Run: &luagen.RunOptions{MinimizeStack: true, CallStackSize: 64, Timeout: 15 * time.Second}},
 			// wave 5: a long history of one contained error along a chosen route, then probes of every
 			// mechanism whose bookkeeping the failed protected calls could have disturbed (history.go)
 			{Name: "history", Features: f, Weight: 1, Gen: historyGen}},
-		NQuick:    120,
-		NThorough: 2500,
-		Corpus:    corpus,
-		VM:        true,
-		Isolate:   true,
+		// the child's own guard: 15 s instead of the default 5 s (a 250-iteration history on a loaded machine is
+		// not a hang; a real one still runs into it, and into the parent's 20 s)
+		RunOptions: &luagen.RunOptions{Timeout: 15 * time.Second},
+		NQuick:     150,
+		NThorough:  2500,
+		Corpus:     corpus,
+		VM:         true,
+		Isolate:    true,
 		Extra: func(w *lib.Writer, tier string, seed uint64) {
 			faultEnumeration(w, tier, seed)
 			apiProtected(w, tier, seed)
